@@ -8,6 +8,9 @@ The fault engine enumerates fault operators over the bytes of the two real .nzd 
     Del(p)            delete byte p
     Sub^k             k <= 4 simultaneous substitutions inside one 6-byte framing window (field id, length, first payload bytes)
     MaxLen(j)         the two Sub^4 that turn field j's length into ff ff ff ff <next byte> (up to 32 GiB) and ff ff ff 7f (2^28-1)
+    IdMap / PoolStr   structure-aware Sub^k (k<=4, lengths kept): alias entries of the id map re-pointed to another alias, to
+                      themselves, to a non-id string, in 2-cycles and 3-cycles; id strings of the pool with a meaningful token
+                      ("UTC", "UTC+", "GMT", "Etc/", "+", "-", ":", digits) written over their first / last characters
     Sub(p, v)         role-aware values inside zone payloads: every month 0..13, every flag byte 0..127, every day-of-month
                       code 0..63 of the tail rules; orig+-1, orig+-2, 0x7F, 0x80, 1..12 ("E") and all 256 values on chosen zones
 
@@ -764,6 +767,25 @@ def _shard_body(acc, fc, kind, item):
                     # field-seam results for this field kind cannot be trusted on this tree
                     acc.degrade("field seam and public seam classify a fault in a field of id %d differently (%s on %s: field-only %r, public-only %r)"
                                 % (f.fid, fault_text(fault), fc.name, d[0], d[1]))
+    elif kind == "multi":
+        # structure-aware faults: item[2] = [(((pos, byte), ...), ids to fetch or None = the ids that are new)], all inside one field
+        for subs, ids in item[2]:
+            role, j = fc.role(subs[0][0])
+            f = fc.fields[j]
+            pl = bytearray(F.payload(fc.data, f))
+            for p, b in subs:
+                pl[p - f.payload_start] = b
+            pl = bytes(pl)
+            if ids is None:
+                pick = lambda got: sorted(i for i in got if i not in fc.all_ids)[:4]      # noqa: E731
+            else:
+                pick = lambda got, ids=ids: [i for i in ids if i in set(got)]             # noqa: E731
+            fault = ("S", tuple(subs))
+            if item[3]:
+                ex = run_seam(acc, fc, fault, j, pl, pick)
+            else:
+                ex = run_public(acc, fc, fault, with_canaries(fc, pick))
+            account(acc, ex)
     elif kind == "maxlen":
         # Sub^4: the four bytes from the first length byte of a field on are set to 0xFF (a 5-byte varint whose top byte is
         # whatever follows): declared lengths of up to 32 GiB
@@ -869,6 +891,9 @@ def plan(tier, seed, seam_ok, notes):
                     items.append(("tuples", fi, w0, 2, kmax, 3, sh, nsh))
             notes.setdefault("tuple_windows", {})[fc.name] = [0, fc.fields[0].start, first_zone.start, fc.fields[-1].start]
             items += listed("maxlen", fi, range(len(fc.fields)), 30)
+            for fam, per in ((idmap_faults(fc, tier), 60), (poolstr_faults(fc, tier), 40)):
+                for i in range(0, len(fam), per):
+                    items.append(("multi", fi, fam[i:i + per], seam_ok))
             # seam equivalence sample
             if seam_ok:
                 ep = set()
@@ -929,12 +954,18 @@ def plan(tier, seed, seam_ok, notes):
             for a, b in nonzone:
                 idp |= set(range(a, b))
             idp = sorted(idp)
-            for kind, extra in (("del", ()), ("ins", (0x80,))):
+            # Ins shifts the framing exactly like Del does: it gets the framing bytes, the first 512 bytes of every non-zone
+            # field and the end of the file; Del gets every non-zone position
+            inp = set(framing) | set(range(L - 32, L + 1))
+            for a, b in nonzone:
+                inp |= set(range(a, min(b, a + 512)))
+            inp = sorted(inp)
+            for kind, extra, plist in (("del", (), idp), ("ins", (0x80,), inp)):
                 i = 0
-                while i < len(idp):
-                    a = idp[i]
+                while i < len(plist):
+                    a = plist[i]
                     n = max(8, int(12e6 / (a + 4000)))
-                    items.append((kind, fi, ("l", idp[i:i + n])) + extra)
+                    items.append((kind, fi, ("l", plist[i:i + n])) + extra)
                     i += n
             # Sub^k, k<=4, 4-value alphabet, eight windows
             tailed = [f for f in by_size if _is_tailed(fc, f)]
@@ -942,6 +973,9 @@ def plan(tier, seed, seam_ok, notes):
             wins += [f.start for f in fc.fields if f.fid in (2, 3)]
             notes.setdefault("tuple_windows", {})[fc.name] = wins
             items += listed("maxlen", fi, range(len(fc.fields)), 30)
+            for fam, per in ((idmap_faults(fc, tier), 60), (poolstr_faults(fc, tier), 40)):
+                for i in range(0, len(fam), per):
+                    items.append(("multi", fi, fam[i:i + per], seam_ok))
             for w0 in wins:
                 nsh = 4 if w0 < 64 else 24
                 for sh in range(nsh):
@@ -957,6 +991,97 @@ def plan(tier, seed, seam_ok, notes):
                         ep.extend(range(f.payload_start, f.payload_start + 32))
                 items += listed("equiv", fi, ep, 12)
     return items
+
+
+TOKENS = ("UTC", "UTC+", "UTC-", "GMT", "Etc/", "+", "-", ":") + tuple("0123456789")
+
+
+def idmap_faults(fc, tier):
+    """value-level mutations of the id map (alias -> canonical id), as byte substitutions that keep every varint's length:
+    re-point an alias to another alias's key, to its own key, to a pool string that is no id; 2-cycles and 3-cycles.
+    Only mutations changing at most 4 bytes are kept.  -> [(subs, [aliases to fetch])]"""
+    f = next((x for x in fc.fields if x.fid == 3), None)
+    if f is None:
+        return []
+    pl = F.payload(fc.data, f)
+    try:
+        ents = M.idmap_entries(pl)
+    except M.Bad:
+        return []
+    non_ids = {}
+    for i, st in enumerate(fc.pool):
+        if st not in fc.all_ids:
+            non_ids.setdefault(len(M.enc_varint(i)), i)
+    out = []
+    seen = set()
+
+    def add(changes):
+        """changes: [(entry index, new value index)]"""
+        subs = []
+        for ei, t in changes:
+            _ko, _kl, _k, vo, vl, v = ents[ei]
+            enc = M.enc_varint(t)
+            if len(enc) != vl:
+                return
+            for n in range(vl):
+                if enc[n] != pl[vo + n]:
+                    subs.append((f.payload_start + vo + n, enc[n]))
+        subs = tuple(sorted(subs))
+        if not 1 <= len(subs) <= 4 or subs in seen:
+            return
+        seen.add(subs)
+        out.append((subs, [fc.pool[ents[ei][2]] for ei, _t in changes]))
+    n = len(ents)
+    gaps = (1, 2, 5) if tier == "quick" else tuple(range(1, 13))
+    for i in range(n):
+        k_i = ents[i][2]
+        add([(i, ents[(i + 1) % n][2])])                 # chain: alias -> another alias
+        add([(i, k_i)])                                  # self-loop
+        for t in non_ids.values():
+            add([(i, t)])                                # alias -> a string that is no id at all
+        for g in gaps:
+            j = (i + g) % n
+            if j != i:
+                add([(i, ents[j][2]), (j, k_i)])         # 2-cycle
+        j, k = (i + 1) % n, (i + 2) % n
+        if len({i, j, k}) == 3:
+            add([(i, ents[j][2]), (j, ents[k][2]), (k, k_i)])   # 3-cycle
+    return out
+
+
+def poolstr_faults(fc, tier):
+    """string-level faults on the pool strings that are ids: a meaningful token written over the first or the last
+    characters (same length, at most 4 bytes changed).  quick: ids of fixed zones and of aliases to them; thorough: every id."""
+    f = fc.fields[0]
+    if f.fid != 0:
+        return []
+    pl = F.payload(fc.data, f)
+    try:
+        ents = M.pool_entries(pl)
+    except M.Bad:
+        return []
+    fixed = set()
+    for x in fc.fields:
+        if x.fid == 1 and set(fc.roles.get(x.index, {}).values()) & {"fixed-offset"}:
+            fixed.add(fc.zone_id[x.index])
+    targets = set(fc.all_ids) if tier != "quick" else (fixed | {a for a, c in fc.idmap.items() if c in fixed})
+    out = []
+    seen = set()
+    for idx, st in enumerate(fc.pool):
+        if st not in targets:
+            continue
+        off, n = ents[idx]
+        raw = pl[off:off + n]
+        for tok in TOKENS:
+            t = tok.encode()
+            if len(t) > n:
+                continue
+            for mut in (t + raw[len(t):], raw[:n - len(t)] + t):
+                subs = tuple((f.payload_start + off + i, mut[i]) for i in range(n) if mut[i] != raw[i])
+                if 1 <= len(subs) <= 4 and subs not in seen:
+                    seen.add(subs)
+                    out.append((subs, None))
+    return out
 
 
 def _is_tailed(fc, f):
